@@ -552,3 +552,45 @@ func verifC18_program() {
 	vClassify("program", trace)
 	vObserve("c18program", trace, vWireSummary(t.out))
 }
+
+// C18.midframe-deadline: the peer sends a frame header together with part of its payload and stalls; a read deadline
+// fires during the Read that waits for the rest: the call fails and the connection is closed (as for a Read that waits
+// for a header).
+func verifC18_midframe_deadline() {
+	client := vParam("client", 1) == 1
+	vInstallRand()
+	f := vFrame{fin: true, opcode: 2, masked: !client, payload: vBytes("m", 4)}
+	if f.masked {
+		copy(f.key[:], vBytes("key", 4))
+	}
+	enc := vEncodeFrame(f)
+	cut := len(enc) - 1 - vChoose("missing", 3) // 1..3 payload bytes never arrive
+	t := vNewTransport(enc[:cut])
+	t.endMode = vEndBlock
+	c := vNewConn(t, client, nil, 32, 64)
+	nc := NetConn(vBG, c, MessageBinary)
+	nc.SetReadDeadline(time.Now().Add(time.Second))
+	start := vGhostElapsed()
+	type res struct {
+		n   int
+		err error
+	}
+	done := make(chan res, 1)
+	go func() {
+		p := make([]byte, 8)
+		n, err := nc.Read(p)
+		done <- res{n, err}
+	}()
+	select {
+	case r := <-done:
+		vAssert(r.err != nil && r.err != io.EOF, "C18.deadline.active-call-fails")
+	case <-time.After(10 * time.Second):
+		vAssert(false, "C18.deadline.active-call-fails")
+	}
+	vReach("C18.midframe-deadline.returned")
+	vAssert(vGhostElapsed()-start < 2*time.Second+vSlack(), "C18.deadline.active-call-fails-at-the-deadline")
+	vGhostSettle()
+	vAssert(!vIsOpen(c), "C18.deadline.active-call-closes-the-connection")
+	c.CloseNow()
+	vObserve("c18midframe", cut)
+}
